@@ -966,14 +966,22 @@ class Collocator:
             pd.Timestamp(secondary.time.values.max().item(0)).tz_localize(None) + max_interval
         )
 
+        # Keep the full (nanosecond) resolution of pandas timestamps,
+        # np.datetime64(pd.Timestamp) would truncate them to microseconds:
+        common_start, common_end = (
+            t.to_datetime64() if isinstance(t, pd.Timestamp)
+            else np.datetime64(t)
+            for t in (common_start, common_end)
+        )
+
         primary_period = primary.time.where(
-            (primary.time.values >= np.datetime64(common_start))
-            & (primary.time.values <= np.datetime64(common_end))
+            (primary.time.values >= common_start)
+            & (primary.time.values <= common_end)
         ).dropna(primary.time.dims[0])
 
         secondary_period = secondary.time.where(
-            (secondary.time.values >= np.datetime64(common_start))
-            & (secondary.time.values <= np.datetime64(common_end))
+            (secondary.time.values >= common_start)
+            & (secondary.time.values <= common_end)
         ).dropna(secondary.time.dims[0])
 
         return primary_period, secondary_period
